@@ -60,8 +60,9 @@ def mkey(m):
 class Session(object):
     """R-DEBUG: produces, command by command, the expected reply events"""
 
-    def __init__(self, prog):
+    def __init__(self, prog, run_bound=None):
         self.prog = prog
+        self.run_bound = run_bound or RUN_BOUND
         m = I.Machine(prog, '')
         self.hist = [(m, 0)]
         self.bps = {0}
@@ -78,6 +79,7 @@ class Session(object):
     def clone(self):
         s = Session.__new__(Session)
         s.prog = self.prog
+        s.run_bound = self.run_bound
         s.hist = list(self.hist)
         s.bps = set(self.bps)
         s.ghost = set(self.ghost)
@@ -142,7 +144,7 @@ class Session(object):
             alive = self._step(chunks)
             steps = 1
             while alive and self.hist[-1][1] < n and self.hist[-1][1] not in self.bps:
-                if steps >= RUN_BOUND:
+                if steps >= self.run_bound:
                     self.cut = True
                     return []
                 alive = self._step(chunks)
@@ -262,11 +264,11 @@ def events_match(exp, got):
     return True
 
 
-def check_session(prog, script, status, stdout, stderr):
+def check_session(prog, script, status, stdout, stderr, run_bound=None):
     """Replays `script` (list of command lines) on the reference and compares with the real transcript.
     Returns None | (klass, expected, observed)."""
     replies = parse_transcript(stdout)
-    s = Session(prog)
+    s = Session(prog, run_bound)
     if replies[0]:
         return ('debug:preamble', '[]', str(replies[0]))
     k = 0   # prompts consumed
@@ -354,7 +356,10 @@ def sessions_task(name, text, scripts):
         st.inc('transitions', len(script))
         if len(st.samples) < 3:
             st.sample({'program': name, 'script': list(script), 'status': r.status})
-        res = check_session(prog, list(script), r.status, r.out.decode('utf-8', 'replace'), r.err.decode('utf-8', 'replace'))
+        res = check_session(prog, list(script), r.status, r.out.decode('utf-8', 'replace'), r.err.decode('utf-8', 'replace'),
+                            5000 if name.startswith('scale') else None)
+        if res is None and name.startswith('scale'):
+            st.inc('scale_sessions_compared')
         st.add('status', r.status)
         if res is not None:
             st.violate(Violation('C11', 'debug', res[0], {'kind': 'debug', 'program': name, 'prog': text, 'script': list(script)},
@@ -430,6 +435,28 @@ def bfs_paths(prog, alphabet, depth, max_states):
     return maximal, len(seen), transitions, complete_depth, capped
 
 
+def scale_sessions(tier):
+    """long histories: hundreds of steps taken back again, hundreds of breakpoints, runs of more than a thousand commands"""
+    from . import scale
+    q = tier == 'quick'
+    out = []
+    sizes = (16, 17, 64, 65, 256, 257) if q else scale.LADDER
+    straight = scale.straight(640)
+    for n in sizes:
+        for m in (n - 1, n, n + 1):
+            out.append(('scale-straight', straight, tuple(['n'] * n + ['p'] * m + ['s', 'n', 's'])))
+        bs = ['b %d' % i for i in range(1, n + 1)]
+        out.append(('scale-straight', straight, tuple(bs + ['b', 'r', 's'] + bs[1::2] + ['b', 'r', 's', 'r', 'r', 's'])))
+        out.append(('scale-straight', straight, tuple(['b %d' % (n + 1), 'r', 's'] + ['p'] * (n // 2) + ['r', 's', 'n', 'p', 'p', 's'])))
+    loop = scale.loop_program(150) + ' 항.'          # 1050 commands executed before the last one
+    last = len(P.parse(loop)) - 1
+    for k in ((500, 513, 1040, 1060) if q else (255, 257, 500, 511, 512, 513, 520, 600, 1023, 1024, 1025, 1040, 1049, 1060)):
+        out.append(('scale-loop', loop, tuple(['b %d' % last, 'r', 's'] + ['p'] * k + ['s', 'n', 's'])))
+    for k in ((130, 260) if q else (64, 65, 128, 129, 130, 256, 257, 260)):
+        out.append(('scale-loop', scale.loop_program(300), tuple(['b 3'] + ['r'] * k + ['s', 'p', 's', 'r', 's'])))
+    return out
+
+
 def _task(t):
     return sessions_task(*t)
 
@@ -468,6 +495,10 @@ def run_c11(tier):
         scripts = sorted(scripts, key=lambda s: (len(s), s))
         for i in range(0, len(scripts), 600):
             tasks.append((name, text, scripts[i:i + 600]))
+    sc = scale_sessions(tier)
+    for name, text, script in sc:
+        tasks.append((name, text, [script]))
+    info['size-ladder'] = {'sessions': len(sc), 'longest_script': max(len(s[2]) for s in sc)}
     collect(st, pmap(_task, [(t,) for t in tasks]))
     cov = {
         'states': nstates,
